@@ -137,8 +137,8 @@ Section Chunk.
         | None => RErr (Some idx) OtherError
         | Some remain =>
             match verify_group_with_chunk g remain None with
-            | CCompleted used cons =>
-                match checked_add consumed cons with
+            | CCompleted used csm =>
+                match checked_add consumed csm with
                 | None => RErr (Some idx) CyclesOverflow
                 | Some consumed' =>
                     match checked_add cycles used with
@@ -164,11 +164,11 @@ Section Chunk.
         | None => RErr (Some idx) OtherError
         | Some remain =>
             match verify_group_with_chunk g remain None with
-            | CCompleted _ cons =>
-                match checked_add used cons with
+            | CCompleted _ csm =>
+                match checked_add used csm with
                 | None => RErr (Some idx) CyclesOverflow
                 | Some used' =>
-                    match checked_add cycles cons with
+                    match checked_add cycles csm with
                     | None => RErr (Some idx) CyclesOverflow
                     | Some cycles' => rs_loop gs' (S idx) limit cycles' used'
                     end
@@ -185,8 +185,8 @@ Section Chunk.
     | None => RErr None OtherError
     | Some g =>
         match verify_group_with_chunk g limit (ts_state ts) with
-        | CCompleted used cons =>
-            match checked_add 0 cons with
+        | CCompleted used csm =>
+            match checked_add 0 csm with
             | None => RErr (Some cur) CyclesOverflow
             | Some used0 =>
                 match checked_add (ts_current_cycles ts) used with
